@@ -115,6 +115,9 @@ def job_validate_bf(j):
             if phase == "post":
                 det = mock.Mock(); det.currency_code = g["cur"]
                 bc.account.get_account_details.return_value = det
+                if g.get("funds_fail"):
+                    from betfairlightweight.exceptions import BetfairError
+                    bc.account.get_account_funds.side_effect = BetfairError("funds call failed")
                 cl.update_account_details()
             for c in g[phase]:
                 order = make_order(strat, c)
